@@ -552,3 +552,66 @@ Fixpoint replay (evs : list ev) (trace : list (nat * Z)) (st : state) : option s
 (* after the trace: let every thread finish its invisible tail (Wr finished_time without clock, Rel is
    visible so nothing of substance remains) *)
 End Conc.
+
+(* ================================================================== Ser *)
+(* Any number of threads performing arbitrary Progress operations (add / start / stop / update /
+   reset / advance / remove), each operation being ONE critical section whose body is an arbitrary
+   sequence of micro-steps on (shared state, thread-local state) -- any decomposition of the method
+   into atomic actions, down to single bytecodes.  A schedule picks which thread moves next; a move
+   is: take the free lock and start the next operation / one micro-step / release.  Events outside
+   the critical section do not touch shared state (checked on the regenerated event lists:
+   `single_cs_b`) and are omitted.  `hist` is a ghost: the operations in lock-acquisition order. *)
+Module Ser.
+Set Implicit Arguments.
+Section M.
+Variables Sh Lo Op Ms : Type.
+Variable mexec : Ms -> Sh * Lo -> Sh * Lo.
+Variable body : Op -> list Ms.
+Variable lo0 : Op -> Lo.
+
+Record thr := mkThr { cur : option (Lo * list Ms); todo : list Op }.
+Record st := mkSt { sh : Sh; lock : option nat; ths : list thr; hist : list (nat * Op) }.
+
+Fixpoint set_nth {A} (n : nat) (x : A) (l : list A) : list A :=
+  match l, n with
+  | [], _ => []
+  | _ :: r, O => x :: r
+  | y :: r, S n' => y :: set_nth n' x r
+  end.
+
+Definition step (s : st) (i : nat) : st :=
+  match nth_error (ths s) i with
+  | None => s
+  | Some th =>
+      match cur th with
+      | None =>
+          match todo th, lock s with
+          | o :: r, None =>
+              mkSt (sh s) (Some i) (set_nth i (mkThr (Some (lo0 o, body o)) r) (ths s)) (hist s ++ [(i, o)])
+          | _, _ => s                                        (* nothing to do, or blocked *)
+          end
+      | Some (lo, []) => mkSt (sh s) None (set_nth i (mkThr None (todo th)) (ths s)) (hist s)
+      | Some (lo, m :: rest) =>
+          let '(sh', lo') := mexec m (sh s, lo) in
+          mkSt sh' (lock s) (set_nth i (mkThr (Some (lo', rest)) (todo th)) (ths s)) (hist s)
+      end
+  end.
+Definition run (s : st) (sched : list nat) : st := fold_left step sched s.
+
+Definition run_body (ms : list Ms) (x : Sh * Lo) : Sh * Lo := fold_left (fun x m => mexec m x) ms x.
+Definition run_op (o : Op) (s : Sh) : Sh := fst (run_body (body o) (s, lo0 o)).
+Definition seq_run (os : list Op) (s : Sh) : Sh := fold_left (fun s o => run_op o s) os s.
+Definition init (s0 : Sh) (progs : list (list Op)) : st :=
+  mkSt s0 None (map (fun p => mkThr None p) progs) [].
+End M.
+Unset Implicit Arguments.
+End Ser.
+
+(* one critical section containing every shared access and every clock read of the method *)
+Module SerFacts.
+Import Conc.
+Fixpoint count_acq (l : list ev) : nat :=
+  match l with [] => O | Acq :: r => S (count_acq r) | _ :: r => count_acq r end.
+Definition single_cs_b (l : list ev) : bool :=
+  Nat.eqb (count_acq l) 1 && guarded l && clock_inside_b l.
+End SerFacts.
